@@ -2639,10 +2639,34 @@ func writeBodyFixedSize(w *bufio.Writer, r io.Reader, size int64) error {
 		}
 	}
 
-	n, err := copyBodyStream(w, r)
+	// Never write more than size bytes, even if r yields more. Streams
+	// that copy themselves via WriteTo cannot be limited here.
+	src, limited := r, false
+	switch v := r.(type) {
+	case *os.File:
+		limited = true
+	case *io.LimitedReader:
+		limited = v.N > size
+	case BodyWriterTo:
+		limited = !v.SupportsBodyWriteTo()
+	case io.WriterTo:
+	default:
+		limited = true
+	}
+	if limited {
+		src = io.LimitReader(r, size)
+	}
+
+	n, err := copyBodyStream(w, src)
 
 	if n != size && err == nil {
 		err = fmt.Errorf("copied %d bytes from body stream instead of %d bytes", n, size)
+	}
+	if limited && err == nil {
+		var b [1]byte
+		if m, _ := r.Read(b[:]); m > 0 {
+			err = fmt.Errorf("body stream yields more than %d bytes", size)
+		}
 	}
 	return err
 }
